@@ -861,14 +861,15 @@ def driver_exits(fn, roles, uses_context, what, bad):
     when the status is true, and otherwise *calls* the error function left in the result register
     with (text, failure position)."""
     v = roles.v
-    lid = None
+    names = {t[1] for t in (getattr(roles, 'final', None) or ())} | {v}
+    n = 0
     for p in roles.paths:
+        # the loop statement carries an identifier of its own on every path that reaches it
+        lid = None
         for s in p.steps:
             if s[0] == 'LOOP' and s[1] is roles.loop_node:
                 lid = s[3]
-    finals = getattr(roles, 'final', None) or {('PHI', v, lid)}
-    n = 0
-    for p in roles.paths:
+        finals = {('PHI', x, lid) for x in names}
         dec, V = [], None
         for cand in finals:
             d = [t for t in p.tests() if t[1] == ('SUB', cand, ('CONST', '0'))]
